@@ -24,10 +24,10 @@ EXPLANATION = (
 RULES = {
     'R1': 'SER(T) for every state ADT; omitted fields ⊆ reviewed table with re-checked evidence',
     'R1c': 'the recompute arm of the optional fee cache agrees with the insertion-time computation (= C15.R2/R3)',
-    'R2': 'reset_syncing_state before serialisation and after set_state',
+    'R2': 'reset_syncing_state before serialisation and after set_state; reset_syncing_state clears both transient fields on every path',
     'R3': 'cache re-attachment dominates publication of the restored state',
-    'R4': 'config argument applied after restore; field exhaustiveness of set_config_no_verification',
-    'R5': 'layout agreement of the upgrade memory region',
+    'R4': 'config argument applied after restore; field exhaustiveness of set_config_no_verification; every state write of set_config_no_verification sits under request.<field> is Some',
+    'R5': 'layout agreement of the upgrade memory region; memory::write grows by the ceiling page count and then writes',
     'R6': 'WRITES(REACH(pre_upgrade, post_upgrade) minus the explicit config argument) ⊆ reviewed table of transient / derived fields',
 }
 ASSUMPTIONS = ['serde derive writes exactly the fields passed to serialize_field; ciborium round-trips them',
